@@ -69,7 +69,8 @@ BinOp(o, a, b) ==
                   ELSE IF (a.t = "str" \/ b.t = "str") /\ IsPrim(a) /\ IsPrim(b) THEN VStr(ToStr(a) \o ToStr(b)) ELSE Unsup
     [] o \in {"-", "*", "<", ">", "<=", ">="} ->
          IF a.t = "int" /\ b.t = "int"
-         THEN (CASE o = "-" -> VInt(a.i - b.i) [] o = "*" -> VInt(a.i * b.i) [] o = "<" -> VBool(a.i < b.i)
+         THEN (CASE o = "-" -> VInt(a.i - b.i) [] o = "*" -> (IF a.i * b.i = 0 /\ (a.i < 0 \/ b.i < 0) THEN Unsup ELSE VInt(a.i * b.i))     \* -0 is not an integer
+                 [] o = "<" -> VBool(a.i < b.i)
                  [] o = ">" -> VBool(a.i > b.i) [] o = "<=" -> VBool(a.i <= b.i) [] o = ">=" -> VBool(a.i >= b.i))
          ELSE Unsup
     [] o \in {"===", "!=="} -> IF a.t = "loc" \/ b.t = "loc" THEN Unsup ELSE VBool(StrictEq(a, b) = (o = "==="))
@@ -401,7 +402,7 @@ StepV(st, v) ==
          ELSE Ret(s0, BinOp(fr.o, fr.lv, v))
     [] fr.f = "un" -> (CASE fr.o = "!" -> Ret(s0, VBool(~Truthy(v)))
                          [] fr.o = "typeof" -> Ret(s0, VStr(TypeOfV(s0.heap, v)))
-                         [] fr.o = "-" -> Ret(s0, IF v.t = "int" THEN VInt(0 - v.i) ELSE Unsup)
+                         [] fr.o = "-" -> Ret(s0, IF v.t = "int" /\ v.i # 0 THEN VInt(0 - v.i) ELSE Unsup)          \* -0 is not an integer
                          [] OTHER -> Ret(s0, Unsup))
     [] fr.f = "logic" -> IF Truthy(v) = (fr.o = "&&") THEN Ev(s0, fr.r) ELSE Ret(s0, v)
     [] fr.f = "cond" -> Ev(s0, IF Truthy(v) THEN fr.a ELSE fr.b)
